@@ -276,7 +276,10 @@ pub fn diff_json(a: &Value, b: &Value, path: &str) -> String {
 
 fn check_end_block(db: &LayoutDb, blk: &[u8], ngroups: i64, cls: &str, sink: &Sink, seed: u64) {
 	let mut r = Rng::new(seed ^ fnv(blk));
-	let start = gen::build_start_block(db, [3, 16, 0], &["single".to_string(), "single".into(), "none".into(), "none".into()], 760, &mut r);
+	// the Game Start of the file is of a version whose own Game End is shorter, equal or longer than the block
+	// (what a Game End block holds is decided by its length alone)
+	let ver = [[3u8, 16, 0], [1, 0, 0], [2, 0, 0], [3, 12, 0], [0, 1, 0], [3, 13, 0]][(fnv(blk) % 6) as usize];
+	let start = gen::build_start_block(db, ver, &["single".to_string(), "single".into(), "none".into(), "none".into()], db.for_version(ver[0], ver[1]).start_len, &mut r);
 	let bytes = file_with_blocks(&start, Some(blk), blk.len().max(1));
 	let want = if ngroups < 0 || blk.is_empty() { Err("block length".to_string()) } else { expected_end_json(db, blk, ngroups as usize) };
 	let report = |check: &str, kind: &str, d: String| sink.report(&viol(check, cls, kind, d), &|| json!({"end_block_hex": crate::util::hex(blk)}));
